@@ -20,7 +20,9 @@
 // replayed in lock-step by lean/Drivers/C17.lean.  Oracle verdicts are `ev ORACLE <kind> …` lines.
 #ifndef C17_NOVRT
 #include "../vrt/vrt.h"
+#define L2TAG ""
 #else
+#define L2TAG " L2=1"
 #include <cstdarg>
 #include <cstdint>
 #include <cstdio>
@@ -59,6 +61,7 @@ static uint64_t vrt_switches() { return 0; }
 #include <sched.h>
 
 #include <algorithm>
+#include <atomic>
 #include <cstdio>
 #include <cstdlib>
 #include <cstring>
@@ -367,8 +370,8 @@ static void run_pages(uint64_t seed, std::string mode, bool seq) {
   PageRig rig;
   rig.build(m, want_cap, want_batch);
   vrt_begin(seed);
-  printf("RUN %lu mode=%s cap=%zu batch=%zu count=%s pool=0 threads=%d\n", (unsigned long)seed, m.c_str(), rig.cap, rig.batchn, rig.count,
-         nthreads + 1);
+  printf("RUN %lu mode=%s cap=%zu batch=%zu count=%s pool=0 threads=%d%s\n", (unsigned long)seed, m.c_str(), rig.cap, rig.batchn, rig.count,
+         nthreads + 1, L2TAG);
   std::vector<std::vector<Held>> held((size_t)nthreads + 1);
   // sequential prefix: leave the cache exactly empty, exactly full, or anywhere
   {
@@ -394,13 +397,19 @@ static void run_pages(uint64_t seed, std::string mode, bool seq) {
     Rng r(rng.next());
     page_program(rig, r, 0, 8 + (int)rng.below(24), held[0]);
   } else {
+    // all threads (and main) take their babylon ThreadId / BatchPageAllocator slot while everybody is
+    // alive, so the ids are distinct: "threadBuffer tid" of the model is keyed by the harness thread
+    rig.note_thread_slot(0);
+    std::atomic<int> ready {0};
     std::vector<std::thread> ts;
     for (int t = 1; t <= nthreads; ++t) {
       uint64_t tseed = rng.next();
       ts.emplace_back([&, t, tseed] {
+        rig.note_thread_slot(vrt_tid());
+        ready.fetch_add(1);
+        while (ready.load() < nthreads) sched_yield();
         Rng r(tseed);
         page_program(rig, r, vrt_tid(), nops, held[(size_t)t]);
-        rig.note_thread_slot(vrt_tid());
       });
     }
     for (auto& t : ts) t.join();
@@ -587,8 +596,8 @@ static void run_pool(uint64_t seed, bool strict, bool seq) {
   PoolRig rig;
   rig.build(strict, cap);
   vrt_begin(seed);
-  printf("RUN %lu mode=%s cap=%zu batch=0 count=off pool=%zu threads=%d\n", (unsigned long)seed, strict ? "strict" : "auto", rig.qcap, cap,
-         nthreads + 1);
+  printf("RUN %lu mode=%s cap=%zu batch=0 count=off pool=%zu threads=%d%s\n", (unsigned long)seed, strict ? "strict" : "auto", rig.qcap, cap,
+         nthreads + 1, L2TAG);
   std::vector<std::vector<std::unique_ptr<Handle>>> held((size_t)nthreads + 1);
   if (strict) {
     size_t inj = 1 + rng.below(cap);
